@@ -114,6 +114,13 @@ func (db *SingleBucketBackend) ListBucket(bucket string, prefix *gofakes3.Prefix
 
 func (db *SingleBucketBackend) getBucketWithFilePrefixLocked(bucket string, prefixPath, prefixPart string) (*gofakes3.ObjectList, error) {
 	dirEntries, err := afero.ReadDir(db.fs, filepath.FromSlash(prefixPath))
+	if err != nil && prefixPath != "" {
+		// The prefix names a directory that does not exist (or a file): no key
+		// can match it, which is an empty listing and not an error.
+		if stat, serr := db.fs.Stat(filepath.FromSlash(prefixPath)); os.IsNotExist(serr) || (serr == nil && !stat.IsDir()) {
+			return gofakes3.NewObjectList(), nil
+		}
+	}
 	if err != nil {
 		return nil, err
 	}
